@@ -185,7 +185,7 @@ def c07_inputs(rng, quick):
         for m in [0, 1, (1 << 52) - 1, 1 << 51, rng.getrandbits(52)] + ([] if quick else [rng.getrandbits(52) for _ in range(2)]):
             bits.append((be << 52) | m)
     for k in range(-323, 309, 6 if quick else 1):          # decades (one table entry each): nearest doubles to c * 10^k
-        for c in ("1", "3", "7", "9.64750475376655"):
+        for c in ("1", "3", "7"):
             try:
                 x = float(f"{c}e{k}")
             except Exception:
